@@ -99,13 +99,16 @@ MConnect == /\ Ev.e = "connect"
             /\ UNCHANGED <<mro, mrw, mfiles, mrobase, mfs, mpend, bad, badAt>>
             /\ Conform(D!Connect(Tab(Ev.lt), Ev.lc, Tab(Ev.pt), Ev.pc))
 
+\* None and a decoded-but-falsy value are the same answer to the only caller (`if (cache_data)`)
+MissKind(k) == IF k = "falsy" THEN "none" ELSE k
+
 \* TocCache.fetch returned (ret = "none" | "falsy" | "tab" | "other") or raised ("raise")
 MFetch == /\ Ev.e = "fetch"
           /\ mfetched' = [mfetched EXCEPT ![Ev.kind] = TRUE]
           /\ mraised' = [mraised EXCEPT ![Ev.kind] = (Ev.ret = "raise")]
           /\ mfs' = [mfs EXCEPT ![Ev.kind] = mfiles]
           /\ UNCHANGED <<mro, mrw, mfiles, mrobase, mdev, mpend, mo, bad, badAt>>
-          /\ Conform(D!Fetch /\ kind = Ev.kind /\ D!Crc = Ev.crc /\ ret'.k = Ev.ret
+          /\ Conform(D!Fetch /\ kind = Ev.kind /\ D!Crc = Ev.crc /\ MissKind(ret'.k) = MissKind(Ev.ret)
                      /\ (Ev.ret = "tab" => ret'.tab = Tab(Ev.tab)))
 
 \* the downloaded table is handed to TocCache.insert
